@@ -11,7 +11,7 @@ def main(argv):
     tracecheck.run(rep, PID, 'drive-ratelimit', 'RateLimitTrace', 'RateLimitTrace_x.cfg', 400 if th else 150, [rep.seed * 100 + i for i in range(8 if th else 2)], 'ratelimit', comp_key='Limiter')
     # the native limiter keeps one unicast subject per key and per window: per-key order rests on the unicast subject delivering its queued
     # backlog and the live values in one order when it is subscribed while the source keeps emitting (SubjectLin.tla, park mode)
-    parts_subject.lin_part(rep, PID, 40 if th else 12, [rep.seed * 100 + 60 + i for i in range(2 if th else 1)], park=True, kind='unicast')
+    parts_subject.lin_part(rep, PID, 40 if th else 20, [rep.seed * 100 + 60 + i for i in range(3 if th else 2)], park=True, kind='unicast')
     # the native limiter is GroupBy(key) | per-group window: the quota is per key only as long as GroupBy keeps ONE group per key, also when the
     # consumer of a group has left (MultiDef.tla GroupBy / GroupByLeave)
     parts_multi.run_single(rep, PID, th)
